@@ -1,4 +1,5 @@
 import CtrlVerif.Driver.TF
+import CtrlVerif.Driver.SS
 
 namespace CtrlVerif.Driver
 
@@ -6,6 +7,7 @@ def dispatch (line : String) : String :=
   match (line.splitOn " ").filter (· ≠ "") with
   | [] => "bad-op empty"
   | "tf" :: rest => TF.handle rest
+  | "ss" :: rest => SS.handle rest
   | f :: _ => s!"bad-op family:{f}"
 
 end CtrlVerif.Driver
